@@ -80,10 +80,26 @@ inductive F where
   | le (f : String) (v : V)
   | inn (f : String) (vs : List V)
   | nin (f : String) (vs : List V)
+  /-- `_like` family: `mode` 0 = equal, 1 = contains (`%x%`), 2 = ends with (`%x`), 3 = starts with (`x%`);
+      `neg` for `_nlike/_nilike`, `ci` for the case-insensitive variants -/
+  | like (f : String) (mode : Nat) (pat : Bytes) (neg ci : Bool)
   | and (a b : F)
   | or (a b : F)
   | not (a : F)
   deriving Repr, Inhabited
+
+def lowerAscii (b : Bytes) : Bytes := b.map (fun c => if 65 ≤ c ∧ c ≤ 90 then c + 32 else c)
+
+def isInfix (p : Bytes) : Bytes → Bool
+  | [] => p.isEmpty
+  | x :: xs => Bytes.isPrefix p (x :: xs) || isInfix p xs
+
+def likeMatch (mode : Nat) (pat d : Bytes) : Bool :=
+  match mode with
+  | 1 => isInfix pat d
+  | 2 => Bytes.isPrefix pat.reverse d.reverse
+  | 3 => Bytes.isPrefix pat d
+  | _ => pat == d
 
 def F.matches : F → Doc → Bool
   | .tt, _ => true
@@ -95,6 +111,11 @@ def F.matches : F → Doc → Bool
   | .le f v, d => vLe v (d.get f)
   | .inn f vs, d => vs.any (fun v => vEq v (d.get f))
   | .nin f vs, d => !(vs.any (fun v => vEq v (d.get f)))
+  | .like f mode pat neg ci, d =>
+    let m := match d.get f with
+      | .str s => if ci then likeMatch mode (lowerAscii pat) (lowerAscii s) else likeMatch mode pat s
+      | _ => false
+    if neg then !m else m
   | .and a b, d => a.matches d && b.matches d
   | .or a b, d => a.matches d || b.matches d
   | .not a, d => !a.matches d
